@@ -33,13 +33,13 @@ def design_checks(ck, tier):
 def generate(ck, tier):
     """fault schedules = distinct fault histories of the budgeted model (liveness is checked on the same runs)"""
     out = []
-    p1 = os.path.join(ck.dir, "sched_b1.ndjson")
+    p1 = os.path.join(ck.dir, f"sched_b1_{tier}_{os.getpid()}.ndjson")
     res = sc.tlc_mc(ck, "fifo_b1", mode="fifo", budget=1, fair=True, msgs="MsgsA12", init_a="{14}", init_b="{0}",
                     sched_sink=p1, timeout=600)
     vlib.tlc_ok(res, "fifo budget 1")
     ck.add_tlc(res, "fifo/budget1 (liveness + single faults)")
     singles = sc.schedules_from(p1)
-    p2 = os.path.join(ck.dir, "sched_b2.ndjson")
+    p2 = os.path.join(ck.dir, f"sched_b2_{tier}_{os.getpid()}.ndjson")
     # pairs: the one-message workload keeps the quick generator small; thorough uses the full workload
     res = sc.tlc_mc(ck, "fifo_b2", mode="fifo", budget=2, fair=(tier == "thorough"),
                     msgs="MsgsA12" if tier == "thorough" else "MsgsA2", init_a="{14}", init_b="{0}",
@@ -49,14 +49,14 @@ def generate(ck, tier):
     pairs = [s for s in sc.schedules_from(p2) if len(s) == 2]
     # a partially reliable channel next to the reliable one (abandonment, FORWARD-TSN): liveness of the
     # reliable channel + single faults, FORWARD-TSN included
-    p3 = os.path.join(ck.dir, "sched_pr.ndjson")
+    p3 = os.path.join(ck.dir, f"sched_pr_{tier}_{os.getpid()}.ndjson")
     res3 = sc.tlc_mc(ck, "fifo_pr", mode="fifo", budget=1, fair=True, chans="ChansPR", msgs="MsgsTwoCh3",
                      init_a="{14}", init_b="{0}", win=3, sched_sink=p3, timeout=900)
     vlib.tlc_ok(res3, "fifo rel+pr budget 1")
     ck.add_tlc(res3, "fifo/rel+pr budget1 (liveness + single faults)")
     mixed = sc.schedules_from(p3)
     if tier == "thorough":
-        p4 = os.path.join(ck.dir, "sched_pr2.ndjson")
+        p4 = os.path.join(ck.dir, f"sched_pr2_{tier}_{os.getpid()}.ndjson")
         res4 = sc.tlc_mc(ck, "fifo_pr2", mode="fifo", budget=2, fair=True, chans="ChansPR", msgs="MsgsPR2",
                          init_a="{14}", init_b="{0}", win=3, sched_sink=p4, timeout=2400)
         vlib.tlc_ok(res4, "fifo rel+pr budget 2")
@@ -138,6 +138,7 @@ def run(tier):
         "liveness verdicts: deadline 4 s = 20 x rto_max (rto 50..200 ms), confirmed 3 times, last run alone",
         "trusted: TLC, the proxy's record decryption and SCTP reader, the event hooks (add-only, cfg rustrtc_verif)",
     ]
+    sc.cleanup(ck)
     ck.finish()
 
 
